@@ -203,7 +203,16 @@ def fn_by_sig(I, suffix, first_arg):
         if n.endswith(suffix) and fs[0].args.startswith(first_arg): return fs[0]
     raise Stuck(f'{suffix} ({first_arg}) not found in the MIR')
 
-def run_update(I, shape, nadd, then_write=False):
+def program_reference(W, k):
+    """value the top-level targets map should hold for name k after the program (0 = not listed)"""
+    want = InT(IDV(0), k)
+    for op in W.get('program', []):
+        if op[0] == 'add': want = z3.If(k == op[1], op[2], want)
+        elif op[0] == 'remove': want = z3.If(k == op[1], V0(), want)
+        elif op[0] == 'clear': want = V0()
+    return want
+
+def run_update(I, shape, nadd, then_write=False, program=None):
     """from_repo -> versions/expirations -> nadd x add_target -> sign [-> SignedRepository::write].  Returns (W, list of (state, stage, tag, value))"""
     st = State(); st.env['fs'] = {}
     W = mk_world(st, shape)
@@ -235,9 +244,26 @@ def run_update(I, shape, nadd, then_write=False):
         live = chain(live, 'snapshot_expires', lambda s: [ed(s), z3.Int('new_snapshot_expires')])
         live = chain(live, 'timestamp_version', lambda s: [ed(s), z3.BitVec('new_timestamp_version', 64)])
         live = chain(live, 'timestamp_expires', lambda s: [ed(s), z3.Int('new_timestamp_expires')])
-        for k, v in W['new']:
-            for s in live: s.pc.append(v != 0)
-            live = chain(live, 'add_target', lambda s, k=k, v=v: [ed(s), Adt('TargetName', None, {(None, 'nid'): k}), Adt('Target', None, {(None, 'vid'): v})], generics={'T': 'TargetName', 'E': 'Infallible'})
+        # the editing program: by default `nadd` additions; otherwise the given list of ('add' | 'remove' | 'clear') operations over symbolic names
+        prog = program if program is not None else ['add'] * nadd
+        W['program'] = []
+        ai = 0
+        for i, op in enumerate(prog):
+            if op == 'add':
+                if ai < len(W['new']): k, v = W['new'][ai]
+                else:
+                    k, v = z3.BitVec(f'addk{ai}', 8), z3.BitVec(f'addv{ai}', 16); W['new'].append((k, v))
+                ai += 1
+                for s in live: s.pc.append(v != 0)
+                W['program'].append(('add', k, v))
+                live = chain(live, 'add_target', lambda s, k=k, v=v: [ed(s), Adt('TargetName', None, {(None, 'nid'): k}), Adt('Target', None, {(None, 'vid'): v})], generics={'T': 'TargetName', 'E': 'Infallible'})
+            elif op == 'remove':
+                k = z3.BitVec(f'remk{i}', 8); W['program'].append(('remove', k))
+                live = chain(live, 'remove_target', lambda s, k=k: [ed(s), Ref(s.alloc(Adt('TargetName', None, {(None, 'nid'): k})))])
+            elif op == 'clear':
+                W['program'].append(('clear',))
+                live = chain(live, 'clear_targets', lambda s: [ed(s)])
+            else: raise Stuck('unknown program operation ' + op)
         out = []
         for s in live:
             editor_val = s.heap[s.env['ed']]
